@@ -182,3 +182,87 @@ prop(
         "I/O errors end the process (allow-exit)",
     ],
 )
+
+_PIPE = ["./pipeline"]
+
+prop(
+    "C01",
+    level="other",
+    design_ref="DESIGN.md section 3, C01",
+    groups=[(_PIPE, r"^(\(\*Batcher\)\.(work|commitBatch|trySendBatchAndUnlock)|\(\*RetriableBatcher\)\.Out|\(\*processor\)\.(doActions|processSequence|processEvent|Propagate)|\(\*Pipeline\)\.finalize|\(\*stream\)\.(commit|tryDetach|leave)|\(\*Router\)\.(Fail|Out|IsDeadQueueAvailable))$")],
+    claim=(
+        "Each mechanism the commit-frontier property names is a proved contract on the real function: (1) Batcher.work commits a batch only after its own send returned, commitBatch commits in batch-sequence order under seqMu (monitor) and each event once; "
+        "(2) doActions finalizes an event at most once, only after discard / collapse / hold, never notifying the input (so dropped, merged or held events never move the input offset), returning it to the pool for discard and collapse but not for hold; "
+        "finalize notifies the input iff asked and before the stream's own commit; (3) a stream is released to another processor only when its last taken event is committed (tryDetach: awaySeq == commitSeq) and its commit sequence never decreases; "
+        "(4) RetriableBatcher.Out returns only after a successful send or after giving up (C09), and Router.Fail hands a failed event to the dead queue only, Router.Out to the main output only."
+    ),
+    undecided=[
+        "that these mechanisms compose to the frontier property for every interleaving of readers, processors, batch workers and the two batchers: the state spans several locks, an atomic and two channels; single-lock monitor invariants cannot carry it",
+        "'every earlier event of the same stream is finished' (per-stream frontier)",
+        "a dead-queue batch still buffered while the next main batch commits (two batchers without a common lock) - by reading a real hole, not exhibited by contracts",
+    ],
+    assumptions=[
+        "action plugins' Do, the input's Commit and the output's Out are abstracted (any effect except on the named preserved types)",
+        "ownership of batches and events passed through channels / the pool",
+    ],
+    technique="contract-based deductive verification of the named mechanisms (govc over go/ssa + SMT), monitor invariants for lock-guarded state",
+)
+
+prop(
+    "C02",
+    level="other",
+    design_ref="DESIGN.md section 3, C02",
+    groups=[(_PIPE, r"^(\(\*stream\)\.(put|get|instantGet|commit|tryDetach|leave)|\(\*Pipeline\)\.finalize|\(\*processor\)\.(processEvent|processSequence|Propagate|doActions)|\(\*Batcher\)\.(Add|commitBatch))$")],
+    claim=(
+        "Per-stream order mechanisms proved: stream.put hands out strictly increasing sequence ids in arrival order under the stream lock and appends at the tail; get takes the head (FIFO) and records it as the stream's away event; "
+        "after hold/collapse the processor takes the next event from the same stream; Propagate re-injects a held event at the action after the one that held it before the triggering event continues; "
+        "Batcher.Add appends under one mutex and commitBatch commits batches in formation order, each event once in index order; finalize is the single exit: a regular event is committed on its stream exactly once and returned to the pool exactly once iff asked, timeout and child events are not accounted."
+    ),
+    undecided=[
+        "that commits of one stream arrive in sequence order when several processors / batch workers are involved (schedules)",
+        "quiescence accounting over the whole pipeline ('none unaccounted once idle')",
+        "file input's per-stream offset store (provider.commit) - see C03/C07",
+        "list shape of the stream queue (first/last/next chain) is not modelled beyond head/tail pointers",
+    ],
+    assumptions=["as C01"],
+    technique="contract-based deductive verification of the named mechanisms (govc over go/ssa + SMT), monitor invariants for lock-guarded state",
+)
+
+prop(
+    "C04",
+    level="other",
+    design_ref="DESIGN.md section 3, C04",
+    groups=[(_PIPE, r"^(\(\*eventPool\)\.wakeupWaiters|\(\*lowMemoryEventPool\)\.(wakeupWaiters|back|eventsAvailable)|\(\*stream\)\.(put|tryDetach)|\(\*Batch\)\.updateStatus|\(\*Batcher\)\.heartbeat)$")],
+    canaries=[("./pipeline", "replay/C04/zz_replay_c04_test.go", "TestVerifReplayC04")],
+    claim=(
+        "The must-signal / must-flush rules the no-wedge property rests on, as proved per-iteration and per-call contracts: both pool heartbeats broadcast in every iteration in which readers wait and capacity is free (and only then); "
+        "low-memory back() releases its unit and then broadcasts; stream.put charges an unowned empty stream and signals a blocked owner exactly once; tryDetach re-charges a released stream that still has events; "
+        "updateStatus marks a non-empty batch older than the flush timeout ready, and every heartbeat iteration offers the current batch for sending unless stopping."
+    ),
+    undecided=[
+        "liveness and any time bound: that no signal is lost between a check and a Wait under every interleaving, fairness, bounded finalisation time - outside contract logic",
+        "the standard pool's get()/back() CAS ring",
+        "tryUnblock's time-out injection (its Panicf guard depends on the ownership protocol)",
+    ],
+    assumptions=["sync.Cond / atomics behave as their sequential lib contracts"],
+    technique="contract-based deductive verification of the named mechanisms (govc over go/ssa + SMT), per-iteration obligations at loop back edges",
+)
+
+prop(
+    "C05",
+    level="other",
+    design_ref="DESIGN.md section 3, C05",
+    groups=[(_PIPE, r"^(\(\*Pipeline\)\.(In|finalize)|\(\*lowMemoryEventPool\)\.(get|back|inUse)|\(\*processor\)\.(doActions|processSequence))$")],
+    claim=(
+        "Linear ownership accounting proved per function: Pipeline.In takes at most one event from the pool and on every exit path has either streamed it or returned it (held == 0 at every return); "
+        "finalize returns a regular event to the pool exactly once iff asked and never for timeout/child events; doActions finalizes at most once; processSequence hands a passed event to the output exactly once; "
+        "the low-memory pool's get returns only on the path where this call's own increment stayed within capacity and gives its unit back before every wait, back releases exactly one unit, inUse() is clamped to capacity."
+    ),
+    undecided=[
+        "the standard pool (free1/free2 CAS ring: a lock-free protocol) and 'never owned by two holders' across goroutines",
+        "'in-use count returns to exactly zero when idle' (whole-pipeline quiescence)",
+        "size-class pool index (bits.Len) is assumed to be within [0,33)",
+    ],
+    assumptions=["atomics behave as their sequential lib contracts; holders <= capacity follows from the per-call unit accounting by a counting argument stated in DESIGN.md"],
+    technique="contract-based deductive verification of the named mechanisms (govc over go/ssa + SMT), ghost ownership counters",
+)
